@@ -65,7 +65,7 @@ func (l *lineLogger) Log(e any) {
 
 type realOut struct {
 	lg      *lineLogger // the run's own logger (kept to see whether anything reaches it after the run ended)
-	kind    string // result | error | panic | capped | parse-error
+	kind    string      // result | error | panic | capped | parse-error
 	msg     string
 	site    string
 	lines   []string
@@ -115,9 +115,9 @@ func realConfig(op *wire.Rec) *model.SimConfig {
 			level = 0
 		}
 		ch := &model.Character{Key: c, Level: level, MaxLevel: level, Eidols: uint32(eid[i]),
-			Traces:    traces,
-			Abilities: &model.Abilities{Attack: abil, Skill: abil, Ult: abil, Talent: abil},
-			LightCone: &model.LightCone{Key: lcs[i], Level: level, MaxLevel: level, Imposition: uint32(1 + i%5)},
+			Traces:      traces,
+			Abilities:   &model.Abilities{Attack: abil, Skill: abil, Ult: abil, Talent: abil},
+			LightCone:   &model.LightCone{Key: lcs[i], Level: level, MaxLevel: level, Imposition: uint32(1 + i%5)},
 			StartEnergy: float64(op.Int("energy"))}
 		if quirk&8 != 0 {
 			ch.StartHp = []float64{0.5, 0, 2.0, 0.01}[i%4]
